@@ -211,7 +211,7 @@ func decodeAll(wire []byte, cuts []int, out *caseOut, record bool) []decObs {
 		// TotalAlloc is process wide: other goroutines (runtime, package-level background workers of the linked
 		// packages) may allocate during the window.  The decoder's own allocation is deterministic, so a reading
 		// above the bound is re-measured on a copy of the reader and the minimum is what counts.
-		for try := 0; try < 6 && delta > bound; try++ {
+		for try := 0; try < 6 && delta > bound && delta < bound+(1<<20); try++ { // noise is kilobytes, not megabytes
 			r2 := snap
 			runtime.Gosched()
 			runtime.ReadMemStats(&m1)
@@ -827,7 +827,7 @@ func runFwd(c *caseIn, out *caseOut) {
 		got, err := io.ReadAll(appA)
 		adone <- res{got, err}
 	}()
-	deadline := time.After(30 * time.Second)
+	deadline := time.After(10 * time.Second)
 	var ra, rb res
 	okA, okB := false, false
 	fwd := 0
@@ -840,7 +840,7 @@ func runFwd(c *caseIn, out *caseOut) {
 		case <-fdone:
 			fwd++
 		case <-deadline:
-			out.fail("forwarder-hang", "request %d / response %d bytes: after 30 s app A done=%v, app B done=%v, forwarders returned=%d/2", len(req), len(resp), okA, okB, fwd)
+			out.fail("forwarder-hang", "request %d / response %d bytes: after 10 s app A done=%v, app B done=%v, forwarders returned=%d/2", len(req), len(resp), okA, okB, fwd)
 			okA, okB, fwd = true, true, 2
 		}
 	}
